@@ -332,7 +332,7 @@ func replyTimeBefore(c *wire.Conn, t int64) bool { return false }
 func init() {
 	enumCheck("C11", "fault_enumeration",
 		func(q bool) []*EnumPlan {
-			return []*EnumPlan{{Name: "ack-fates", Cases: c11Cases, Eval: evalC11}, {Name: "sole-holder", Cases: c11SoleCases, Eval: evalC11Sole}}
+			return []*EnumPlan{{Name: "ack-fates", Cases: c11Cases, Eval: evalC11}, {Name: "sole-holder", Cases: c11SoleCases, Eval: evalC11Sole}, {Name: "established-hold", Cases: c11EstCases, Eval: evalC11Est}}
 		}, nil,
 		"every combination of: 0..2 followers (real node copies), ack mode all / majority, per-follower acknowledgement fate (delivered, held forever, released 1.5 s later, connection cut with the ack in flight), interference (none, second request for the LockId, unlock during the wait, another request queued behind, leader demotion), with / without a value operation, fresh grant / grant from the wait queue; one execution each on the implementation; oracle: SUCCED only if the log write plus the deliverable acknowledgements reach the configured number and leadership is kept, exactly one terminal reply, on failure no hold is left, the value is the one from before the request and the queued request is served",
 		[]string{"message handlers run under the default schedule; acknowledgement delay/loss is injected on the follower->leader direction of the replication link", "the timing of SUCCED relative to a late acknowledgement is checked only through its consequences (no early success when the quorum depends on a held acknowledgement)"})
